@@ -607,16 +607,26 @@ impl Wal {
 
         let mut segment = self.current_segment.lock();
 
+        // frames still sitting in the BufWriter belong to the log that is being discarded:
+        // write them out first so that set_len(0) removes them too
+        segment
+            .writer
+            .flush()
+            .wrap_err("failed to flush WAL segment before truncate")?;
+
         segment
             .writer
             .get_mut()
             .set_len(0)
             .wrap_err("failed to truncate WAL segment file")?;
 
+        // set_len does not move the file cursor: without this the next frame is written at the
+        // old position and the file gets a hole of zero bytes in front of it
         segment
             .writer
-            .flush()
-            .wrap_err("failed to flush WAL segment after truncate")?;
+            .get_mut()
+            .seek(SeekFrom::Start(0))
+            .wrap_err("failed to rewind WAL segment after truncate")?;
 
         segment.offset = 0;
 
